@@ -84,6 +84,9 @@ struct World {
     calls: Arc<Mutex<Vec<(u64, u64)>>>,
     /// subscription key -> controller task id (v1)
     tasks: std::collections::HashMap<u64, usize>,
+    /// number of `pub` ops so far, and its value at the last grant of each task (statistics)
+    npub: u64,
+    last_grant: std::collections::HashMap<usize, u64>,
 }
 
 impl World {
@@ -98,7 +101,7 @@ impl World {
         let ctl = ractor::verif::install();
         // v2: `default()` spawns the port task (controller task 0)
         let port = OutputPort::<u64>::default();
-        World { ctl, port: Some(port), actors, calls: Arc::new(Mutex::new(Vec::new())), tasks: Default::default() }
+        World { ctl, port: Some(port), actors, calls: Arc::new(Mutex::new(Vec::new())), tasks: Default::default(), npub: 0, last_grant: Default::default() }
     }
 
     #[cfg(not(feature = "outport-v2"))]
@@ -107,8 +110,17 @@ impl World {
         format!("held={h} fin={f} rx={r}")
     }
 
-    async fn grant(&self, id: usize) -> String {
+    async fn grant(&mut self, id: usize, st: &mut Stats) -> String {
         let Some(t) = self.ctl.task(id) else { return "no-such-task".into() };
+        let behind = self.npub - self.last_grant.insert(id, self.npub).unwrap_or(0);
+        if !t.is_done() {
+            if V2 && behind > 32 {
+                st.bump("v2_grant_backlog_over_32");
+            }
+            if !V2 && behind > 16 {
+                st.bump("v1_grant_backlog_over_16");
+            }
+        }
         self.calls.lock().unwrap().clear();
         let mut rounds = 0;
         loop {
@@ -123,6 +135,13 @@ impl World {
             }
         }
         let c = self.calls.lock().unwrap().clone();
+        st.add("converter_calls", c.len() as u64);
+        if rounds > 0 && t.is_done() {
+            st.bump("grant_task_ended");
+        }
+        if rounds > 1 {
+            st.bump("grant_needed_several_polls");
+        }
         format!("calls={} done={}", show_pairs(&c), t.is_done())
     }
 
@@ -131,6 +150,7 @@ impl World {
         match w.as_slice() {
             ["pub", m] => {
                 st.bump("pub");
+                self.npub += 1;
                 self.port.as_ref().unwrap().send(m.parse().unwrap());
                 "ok".into()
             }
@@ -167,15 +187,15 @@ impl World {
             }
             ["grant", "port"] => {
                 st.bump("grant");
-                self.grant(0).await
+                self.grant(0, st).await
             }
             ["grant", key] => {
                 st.bump("grant");
                 let key: u64 = key.parse().unwrap();
-                match self.tasks.get(&key) {
+                match self.tasks.get(&key).copied() {
                     None => "no-such-task".into(),
                     Some(id) => {
-                        let r = self.grant(*id).await;
+                        let r = self.grant(id, st).await;
                         #[cfg(not(feature = "outport-v2"))]
                         let r = format!("{r} {}", self.v1_counts());
                         r
